@@ -107,9 +107,36 @@ def main(tier, seed):
             (("atom", "Radians"), ("atom", "Unos")), (("atom", "Meters"), ("atom", "Liters")), (("atom", "Bits"), ("atom", "Unos"))]
     near = [(a, b) for a, b in near if all(k in A.atoms for k in uexpr.atoms_of(a) + uexpr.atoms_of(b))]
     opnames = list(OPS)
+    F = uexpr.Fraction
+
+    def near_mutate(t):
+        """A unit whose dimension differs from t's only slightly: one exponent numerator changed or negated,
+        an extra (fractional) power of one atom, or a mul turned into a div."""
+        r = rng.random()
+        if r < 0.35:
+            q = rng.choice([F(1, 2), F(3, 2), F(2, 3), F(-1, 2), F(-3, 2), F(5, 2), F(-2, 3), F(4, 3)])
+            q2 = rng.choice([x for x in (F(-q.numerator, q.denominator), F(q.numerator + q.denominator, q.denominator),
+                                        F(1, q.denominator), F(q.numerator * 2, q.denominator)) if x != q])
+            b = ("atom", rng.choice(uexpr.atoms_of(t)))
+            rest = t if rng.random() < 0.6 else None
+            mk = (lambda e: ("mul", rest, ("pow", b, e))) if rest else (lambda e: ("pow", b, e))
+            return mk(q), mk(q2)
+        if r < 0.55:
+            return t, ("pow", t, rng.choice([F(2), F(1, 2), F(-1), F(3, 2), F(2, 3)]))
+        if r < 0.8:
+            b = ("atom", rng.choice(keys))
+            return t, ("mul", t, ("pow", b, rng.choice([F(1), F(-1), F(1, 2), F(-1, 2), F(1, 3)])))
+        a, b = t, ("atom", rng.choice(keys))
+        return ("mul", a, b), ("div", a, b)
+
     while len(neg_cases) < n_neg:
-        if near and rng.random() < 0.25:
+        rr = rng.random()
+        if near and rr < 0.2:
             u1, u2 = rng.choice(near)
+            if rng.random() < 0.5:
+                u1, u2 = u2, u1
+        elif rr < 0.55:
+            u1, u2 = near_mutate(gen_unit())
             if rng.random() < 0.5:
                 u1, u2 = u2, u1
         else:
